@@ -147,6 +147,12 @@ def make_objects(M, desc, param_override=None, node_names=None):
             origins[o["id"]] = callform(M.MainstreamOrigin, ORDER["named"], {"name": o["name"]})
         elif o["kind"] in ("ramp", "simple"):
             cls = M.MeteredOnRamp if o["kind"] == "ramp" else M.SimplifiedMeteredOnRamp
+            if FORMS["rng"] is not None and FORMS["rng"].random() < 0.12:
+                # a user-defined kind derived from a concrete ramp kind (it carries something of its own):
+                # a ramp in every respect
+                from vf import userkinds as UK
+
+                cls = UK.AlineaRamp if o["kind"] == "ramp" else UK.HovRamp
             origins[o["id"]] = callform(cls, ORDER["MeteredOnRamp"], {"capacity": C, "flow_eq_type": fresh(o["eq"]), "name": o["name"]}, 2)
         else:
             raise ValueError(o["kind"])
